@@ -183,7 +183,8 @@ W1 == [on |-> TRUE, t |-> <<"w">>, pl |-> "w1", q |-> 0, r |-> FALSE]
 W2 == [on |-> TRUE, t |-> <<"v">>, pl |-> "w2", q |-> 1, r |-> TRUE]
 W3 == [on |-> TRUE, t |-> <<"w">>, pl |-> "", q |-> 2, r |-> FALSE]
 W4 == [on |-> TRUE, t |-> <<"w">>, pl |-> "", q |-> 0, r |-> TRUE]      \* retained will with an empty payload: clears, and is still published
-Wills == {NoWill, W1, W2, W3, W4}
+W5 == [on |-> TRUE, t |-> <<"w">>, pl |-> "MID", q |-> 1, r |-> FALSE]   \* 12,000 bytes: more than a ring minus a read block, less than a ring
+Wills == {NoWill, W1, W2, W3, W4, W5}
 WillInit == Witness(WNames, c2, k2, {<<"#">>}, 2)
 WillNext == steps < MaxSteps /\
   \/ \E cl \in BOOLEAN, w \in Wills : Connect(c1, k1, cl, w)
